@@ -49,6 +49,7 @@ NAct(a) ==
     CASE a.name = "Deliver" -> [name |-> "Deliver", tx |-> NTx(a.tx), result |-> a.result, failIdx |-> a.failIdx, code |-> a.code, offs |-> a.offs]
       [] a.name = "Redeliver" -> [name |-> "Redeliver", k |-> a.k, tx |-> NTx(a.tx), result |-> a.result, failIdx |-> a.failIdx, code |-> a.code, offs |-> a.offs]
       [] a.name = "EndBlock" -> [name |-> "EndBlock", halted |-> a.halted, invOk |-> a.invOk]
+      [] a.name = "GovSchedule" -> [name |-> "GovSchedule", amt |-> a.amt, ok |-> a.ok]
       [] a.name = "BeginBlock" -> [name |-> "BeginBlock", minted |-> a.minted]
       [] a.name = "RestartBegin" -> [name |-> "RestartBegin", minted |-> a.minted, sameHash |-> a.sameHash]
       [] a.name = "ExportImportBegin" -> [name |-> "ExportImportBegin", minted |-> a.minted, exportOk |-> a.exportOk, exportTwiceEqual |-> a.exportTwiceEqual,
@@ -120,6 +121,7 @@ Observe(rec) ==
     /\ exists' = R(rec.bank.exists)
     /\ supply' = [d \in Denoms |-> SupOf(rec.bank.sup, d).supply]
     /\ rest' = [d \in Denoms |-> SupOf(rec.bank.sup, d).rest]
+    /\ pending' = {[at |-> e.at, amt |-> e.amt] : e \in R(rec.bank.pending)}
     /\ grants' = ToGrants(rec.grants)
     /\ act' = NAct(rec.act)
     /\ view' = NView(rec.views)
@@ -162,6 +164,7 @@ Dispatch ==
     CASE act'.name = "Deliver"           -> Deliver(act'.tx)
       [] act'.name = "Redeliver"         -> act'.k \in DOMAIN delivered /\ delivered[act'.k].tx = act'.tx /\ Redeliver(delivered[act'.k], act'.k)
       [] act'.name = "EndBlock"          -> EndBlock
+      [] act'.name = "GovSchedule"       -> GovSchedule(act'.amt)
       [] act'.name = "BeginBlock"        -> BeginBlock(act'.minted)
       [] act'.name = "RestartBegin"      -> RestartBegin(act'.minted)
       [] act'.name = "ExportImportBegin" -> ExportImportBegin(act'.minted)
@@ -191,7 +194,7 @@ TraceInit ==
     /\ height = 0 /\ phase = "none"
     /\ aolOwners = << >> /\ aolTopics = << >> /\ aolWriters = << >> /\ aolRecords = << >>
     /\ didReg = << >> /\ pnDenoms = << >> /\ pnTokens = << >> /\ pnIndex = {} /\ pnSupply = << >>
-    /\ bal = [a \in Tracked |-> [d \in Denoms |-> 0]] /\ vest = {} /\ exists = {} /\ supply = [d \in Denoms |-> 0] /\ rest = [d \in Denoms |-> 0]
+    /\ bal = [a \in Tracked |-> [d \in Denoms |-> 0]] /\ vest = {} /\ exists = {} /\ supply = [d \in Denoms |-> 0] /\ rest = [d \in Denoms |-> 0] /\ pending = {}
     /\ grants = {} /\ act = [name |-> "none"]
     /\ acked = {} /\ accepted = {} /\ delivered = << >>
     /\ view = << >> /\ obs = << >> /\ accSnap = {} /\ touring = FALSE /\ base = << >>
